@@ -500,3 +500,37 @@ Theorem C02_pd_static_overlap_repaired :
   holds_of st 1 FD = None /\ holds_of st 2 FD = Some (pdbase, 64).
 Proof. vm_compute. split; reflexivity. Qed.
 Print Assumptions C02_pd_static_overlap_repaired.
+
+(* PPPoE, DHCPv6 over PPP (internal/pppoe/dhcpv6.go; ops PS / PR / PX are part of [step], so C02_told_is_recorded and
+   C02_unique cover them: every reachable state, every history).  Told => recorded for the REPLY: the IA_NA address
+   and delegated prefix of a REPLY are what bindDHCPv6 records, and the session owns them in its VRF.  A request
+   that ResolveV6 cannot resolve is NOT answered in this model (finding pppoe-dhcp6-unresolved-answered-by-provider:
+   /repo still hands it to the provider). *)
+Theorem C02_pppoe_v6_reply_is_recorded :
+  forall ps ss, NoDup (map pool_id ps) -> Forall pool_wf ps -> kinds_ok (mkReg ps []) -> resettable (mkReg ps []) ->
+  NoDup (map s_id ss) -> Forall fresh_sess ss ->
+  forall st sid st' a6 ad r6 rd,
+  reach Repaired (init_state ps ss) st ->
+  In (st', OPs true (Some (a6, ad)) r6 rd) (step Repaired st (PS true sid)) ->
+  r6 = a6 /\ rd = ad /\
+  exists s', find_sess sid st' = Some s' /\ s_a6 s' = a6 /\ s_ad s' = ad /\
+             (forall a, a6 = Some a -> owns (st_reg st') F6 (s_vrf s') (a, 0) sid) /\
+             (forall x, ad = Some x -> owns (st_reg st') FD (s_vrf s') x sid).
+Proof. exact pppoe_v6_reply_is_recorded. Qed.
+Print Assumptions C02_pppoe_v6_reply_is_recorded.
+
+(* non-vacuity, and the scenario of the finding in the Repaired model: 1 binds (v6a, prefix 0), releases, 3 connects
+   and is given v6a; 1 solicits again - its context still carries v6a, the reservation conflicts, nothing is answered
+   and nothing recorded: session 3 alone holds v6a *)
+Definition w10_ps := [new_pool F6 3 0 0 (GRange v6a (v6a + 1) []); new_pool FD 9 0 0 pdg].
+Definition w10_ss := [new_sess 1 true None (Some 0) 1; new_sess 2 true None (Some 0) 2; new_sess 3 true None (Some 0) 3].
+Definition w10_ops := [PA 1 0 None None None None None None; PS true 1; PA 2 0 None None None None None None; PR 1;
+                       PA 3 0 None None None None None None; PS false 1; PS true 1].
+Example C02_pppoe_v6_nonvacuous :
+  let st2 := run_first Repaired (init_state w10_ps w10_ss) (firstn 2 w10_ops) in
+  let st := run_first Repaired (init_state w10_ps w10_ss) w10_ops in
+  reach Repaired (init_state w10_ps w10_ss) st /\
+  holds_of st2 1 F6 = Some (v6a, 0) /\ holds_of st2 1 FD = Some (pdbase, 64) /\
+  holds_of st 1 F6 = None /\ holds_of st 1 FD = None /\ holds_of st 3 F6 = Some (v6a, 0).
+Proof. split; [apply run_first_reach; constructor|vm_compute; repeat split; reflexivity]. Qed.
+Print Assumptions C02_pppoe_v6_nonvacuous.
